@@ -67,6 +67,11 @@ const NOTATION_SAMPLES2: &str = include_str!("../samples/notation2.asn");
 /// classes, parameterized types, object identifiers, imports — syntactically valid, compiles
 /// (with warnings) on both backends
 const CYCLE_SAMPLES: &str = include_str!("../samples/cycles.asn");
+/// 42 small inputs in valid X.680–X.683 notation, most of which the compiler does not accept
+/// (value forms, exception markers, encoding instructions, qualified value and class references,
+/// …), separated by a marker line; each is a base of its own: whatever is made of it, the
+/// answer is Ok, Err or a warning, never a crash
+const UNSUPPORTED_SAMPLES: &str = include_str!("../samples/unsupported.asn");
 
 fn base_bytes(b: &Base) -> Vec<u8> {
     match b {
@@ -174,7 +179,15 @@ impl Scenario for C08Images {
             // a hand-written valid module using notation the generator does not produce
             // (TIME, REAL, MACRO, CLASS / objects / object sets, selection types, COMPONENTS OF,
             // parameterization, recursion, multi-byte strings): still a VALID base for images
-            Base::Text([NOTATION_SAMPLES, NOTATION_SAMPLES2, CYCLE_SAMPLES][(idx as usize / 16) % 3].to_string())
+            {
+                let unsupported: Vec<&str> = UNSUPPORTED_SAMPLES.split("\n-- @@ --\n").collect();
+                match (idx as usize / 16) % 4 {
+                    0 => Base::Text(NOTATION_SAMPLES.to_string()),
+                    1 => Base::Text(NOTATION_SAMPLES2.to_string()),
+                    2 => Base::Text(CYCLE_SAMPLES.to_string()),
+                    _ => Base::Text(unsupported[(idx as usize / 64) % unsupported.len()].to_string()),
+                }
+            }
         } else if corpus_turn {
             // systematic walk: every corpus file is a base several times per tier
             Base::Corpus(env.corpus[(idx as usize - idx as usize / 4) % env.corpus.len()].clone())
